@@ -151,6 +151,9 @@ def run(repo, res, tier):
     c03.structure_rules(repo, res)
     c03.minonce(repo, res)
     sk_bash.fb_rule(repo, res, tier)
+    # `a || b || c` is one group with levels 0, 1, 2 only if the parser collects the operands of one `||` chain side by side (PREC, shared with C02)
+    from . import c02 as _c02
+    _c02.prec_rule(repo, res)
     sk_bash.scope_rule(repo, res, tier)
     # inside a word the same `||` order holds only if the shared matcher walks its own levels from 0 on its own tables (S7, S8; shared with C01 / C12)
     sk_bash.sub_rule(repo, res, tier)
